@@ -5,3 +5,4 @@
 
 pub mod codec;
 pub mod engine;
+pub mod trie;
